@@ -32,6 +32,13 @@ def run(shard, ctx):
         firsts = [T.spell(T.LETTERS.index(L), n) for n in range(-k, k + 1)]
         seconds = list(T.pure_names(k))
         inrange = 0
+        # pairs outside the 0..11 domain are named too (what they are called is not judged; what naming them leaves behind is:
+        # the judged pairs and their inverse applications come afterwards)
+        for a in firsts:
+            for b in seconds:
+                if not 0 <= T.letter_distance(a, b) <= 11:
+                    ctx.call(intervals.determine, a, b, True)
+                    ctx.call(intervals.determine, a, b)
         for a in firsts:
             for b in seconds:
                 d = T.letter_distance(a, b)
@@ -69,6 +76,20 @@ def run(shard, ctx):
     elif kind == "shorthand":
         L = shard["letter"]
         seen = set()
+        # every pair starting on this letter is named first, in both forms, whether or not it lies in the 0..11 domain of the
+        # naming clause (what naming leaves behind must not show in the applications judged below)
+        # ... and whatever shorthand comes back is applied at once and judged as a shorthand in its own right
+        for n in [T.spell(T.LETTERS.index(L), k_) for k_ in range(-3, 4)]:
+            for b in T.pure_names(2):
+                for (x, y) in ((n, b), (b, n)):
+                    st, v = ctx.call(intervals.determine, x, y, True)
+                    if st == "ok" and isinstance(v, str) and 1 <= len(v) <= 4 and v[-1] in "1234567" and set(v[:-1]) <= set("#b"):
+                        st2, r = ctx.call(intervals.from_shorthand, x, v)
+                        EL, EP = T.shorthand_apply(x, v, True)
+                        ok = st2 == "ok" and T.valid(r) and T.li(r) == EL and T.pc(r) == EP
+                        ctx.check("shorthand: exactly major size + sharps - flats semitones away", ok, {"note": x, "shorthand": v, "up": "True",
+                                  "asked_right_after": "determine(%r, %r, True)" % (x, y)}, [T.LETTERS[EL], EP], repr(r),
+                                  mechanism="distance:right-after-naming")
         for (kn, ks) in shard["grids"]:
             names = [T.spell(T.LETTERS.index(L), n) for n in range(-kn, kn + 1)]
             for n in names:
